@@ -135,7 +135,7 @@ def handle (args : List Sexp) : String :=
        let p := s.toPkg i
        let gy := collectDepsY d p
        let gg := goDeps (toPkgGo s)
-       let c := operandLate p
+       let c := gtaPanics d p
        let regs := if c then "crash" else showRegs f i s
        let syms := if c then "crash" else showSeq (sortPaths (declaredFuncs i s.decls).eraseDups)
        let tail := s!"ylog={showTraceC c (runSrcY f i d s)} ilog={showTraceC c (runSrcImportY f i d s)} regs={regs} syms={syms} gdeps={showDeps gg} gorder={showRes (orderGo gg)} glog={showTrace (runSrcGo s)} slog={showTrace (runSrcGoS s)}"
